@@ -518,7 +518,12 @@ func genInput(r *rng.R, scenario int) Input {
 	default:
 		chaos = 2
 	}
+	if scenario == 3 && !r.Chance(1, 5) {
+		chaos = 0
+	}
 	switch scenario {
+	case 3: // a small neighbourhood; the shared atom is added at the end
+		u = genUniverse(r, 1+r.Intn(4), 2)
 	case 1: // several slots of few names, requested by name: the order of the listing and of ^^ choices
 		u = genUniverse(r, 3+r.Intn(6), 9)
 	case 2: // a dependency chain / cycle through every package
@@ -567,7 +572,155 @@ func genInput(r *rng.R, scenario int) Input {
 	if scenario == 1 { // ask for every slot of one name
 		in.Atoms = append(in.Atoms, B(u.pkgs[0].pn()))
 	}
+	if scenario == 3 {
+		addSharedAtom(r, u, &in)
+	}
 	return in
+}
+
+// mkPkg: a hand-made VDB directory (declared flags, enabled flags, RDEPEND / PDEPEND text)
+func mkPkg(cat, pf, slot string, declared, enabled []string, rdep, pdep string, useIuseOnly bool) PkgIn {
+	var in PkgIn
+	in.Cat, in.PF, in.Slot = B(cat), B(pf), B(slot+"\n")
+	if useIuseOnly {
+		in.HasIuse, in.Iuse = true, B(strings.Join(declared, " ")+"\n")
+	} else {
+		in.HasIuseEff, in.IuseEff = true, B(strings.Join(declared, " ")+"\n")
+	}
+	in.HasUse, in.Use = true, B(strings.Join(enabled, " ")+"\n")
+	in.HasDep[2], in.Dep[2] = true, B(rdep)
+	if pdep != "" {
+		in.HasDep[3], in.Dep[3] = true, B(pdep)
+	}
+	return in
+}
+
+// addSharedAtom: several selected packages carry the TEXTUALLY IDENTICAL dependency atom with a
+// parent-relative USE dependency ([f=] [!f=] [f?] [!f?], with and without (+)/(-) defaults) while
+// their own setting of f differs, and the installed candidates (one, or several slots) are built
+// with different settings of f -- so the installed matches of one atom text depend on who asks.
+func addSharedAtom(r *rng.R, u *universe, in *Input) {
+	f := r.Pick(flags)
+	g := r.Pick(flags)
+	// the candidates
+	nlib := 1 + r.Intn(3)
+	states := make([]int, nlib) // 0 off, 1 on, 2 not declared
+	for i := range states {
+		states[i] = r.Intn(3)
+		if r.Chance(2, 3) {
+			states[i] = r.Intn(2)
+		}
+	}
+	if nlib >= 2 && r.Chance(3, 4) { // one built with the flag, one without
+		states[0], states[1] = 1, 0
+		if r.Bool() {
+			states[0], states[1] = 0, 1
+		}
+	}
+	libSlots := []string{"1", "2", "3"}
+	for i := 0; i < nlib; i++ {
+		decl, en := []string{}, []string{}
+		if states[i] != 2 {
+			decl = append(decl, f)
+		}
+		if states[i] == 1 {
+			en = append(en, f)
+		}
+		if g != f && r.Bool() {
+			decl = append(decl, g)
+			if r.Bool() {
+				en = append(en, g)
+			}
+		}
+		rdep := ""
+		if r.Chance(1, 3) {
+			rdep = u.pkgs[r.Intn(len(u.pkgs))].pn()
+		}
+		in.Pkgs = append(in.Pkgs, mkPkg("dev-libs", fmt.Sprintf("shared-%d.%d", i+1, r.Intn(4)), libSlots[i], decl, en, rdep, "", r.Chance(1, 5)))
+	}
+	// the one atom text
+	form := r.Pick([]string{f + "=", "!" + f + "=", f + "?", "!" + f + "?"})
+	switch r.Intn(10) {
+	case 0, 1, 2:
+		form += "(+)"
+	case 3, 4, 5:
+		form += "(-)"
+	case 6: // the PMS order of default and operator (the parser wants the other one)
+		form = strings.Replace(strings.Replace(form, "=", "(+)=", 1), "?", "(-)?", 1)
+	}
+	if g != f && r.Chance(1, 5) {
+		form += "," + r.Pick([]string{g + "?", "!" + g + "=", g + "=(+)", "-" + g + "(-)"})
+	}
+	atomText := "dev-libs/shared" + r.Pick([]string{"", "", "", ":*", ":=", ":" + libSlots[r.Intn(nlib)], ":" + libSlots[r.Intn(nlib)] + "="}) + "[" + form + "]"
+	switch r.Intn(8) {
+	case 0:
+		atomText = ">=" + strings.Replace(atomText, "dev-libs/shared", "dev-libs/shared-1", 1)
+	case 1:
+		atomText = "!" + atomText // the same blocker text under different parents
+	}
+	// the parents: the flag on, off, (sometimes) not declared -- in any order
+	pstates := []int{1, 0}
+	if r.Chance(1, 3) {
+		pstates = append(pstates, r.Intn(3))
+	}
+	for j := len(pstates) - 1; j > 0; j-- {
+		m := r.Intn(j + 1)
+		pstates[j], pstates[m] = pstates[m], pstates[j]
+	}
+	wrapKind := r.Intn(6)
+	names := []string{}
+	for i, st := range pstates {
+		decl, en := []string{}, []string{}
+		if st != 2 {
+			decl = append(decl, f)
+		}
+		if st == 1 {
+			en = append(en, f)
+		}
+		if g != f {
+			decl = append(decl, g)
+			if r.Bool() {
+				en = append(en, g)
+			}
+		}
+		text := atomText
+		switch wrapKind {
+		case 0:
+			text = "|| ( " + atomText + " )"
+		case 1:
+			text = "|| ( " + atomText + " " + r.Pick(cats) + "/missing )"
+		case 2:
+			if g != f {
+				text = "!undeclared? ( " + atomText + " )"
+			}
+		}
+		if r.Chance(1, 3) {
+			text = u.pkgs[r.Intn(len(u.pkgs))].pn() + " " + text
+		}
+		rdep, pdep := text, ""
+		if r.Chance(1, 4) {
+			rdep, pdep = "", text
+		}
+		name := fmt.Sprintf("asker%c", 'a'+i)
+		names = append(names, "app-misc/"+name)
+		in.Pkgs = append(in.Pkgs, mkPkg("app-misc", name+"-1."+fmt.Sprint(i), "0", decl, en, rdep, pdep, r.Chance(1, 6)))
+	}
+	// how the askers get selected: asked for directly, or one through the other / through a third package
+	switch r.Intn(4) {
+	case 0: // the first asker pulls the others in
+		k := len(in.Pkgs) - len(names)
+		in.Pkgs[k].HasDep[2] = true
+		in.Pkgs[k].Dep[2] = B(strings.TrimSpace(string(in.Pkgs[k].Dep[2]) + " " + strings.Join(names[1:], " ")))
+		in.Atoms = append(in.Atoms, B(names[0]))
+	case 1: // a third package needs all of them
+		in.Pkgs = append(in.Pkgs, mkPkg("app-misc", "needsall-2", "0", nil, nil, strings.Join(names, " "), "", false))
+		in.Atoms = append(in.Atoms, B("app-misc/needsall"))
+	default:
+		for _, n := range names {
+			in.Atoms = append(in.Atoms, B(n))
+		}
+	}
+	in.Order = shuffleOrder(r, len(in.Pkgs))
 }
 
 func Generate(r *rng.R, tier string, n int, emit func(*common.Case)) {
@@ -581,6 +734,10 @@ func Generate(r *rng.R, tier string, n int, emit func(*common.Case)) {
 			scenario = 1
 		case 3:
 			scenario = 2
+		case 5, 2:
+			if i%12 != 2 { // i%6 == 5, and every second i%6 == 2
+				scenario = 3
+			}
 		}
 		in := genInput(cr, scenario)
 		c := Run(in)
